@@ -1073,8 +1073,9 @@ def jobs(tier):
         out.append(dict(id=func[3:] + '.fault', func=func, params=dict(N=NB, fault=True, page=1), tags=['C08', 'C01'], functions=FUNCS[func] + ['core.Cache._transact'],
                         weight=30, must_reach=['fault_escaped'], only_tags=['C08', 'FAULT']))
     for func in ('ob_set', 'ob_set_file', 'ob_add_file', 'ob_incr', 'ob_pop', 'ob_delete', 'ob_touch', 'ob_clear', 'ob_expire', 'ob_evict', 'ob_cull'):
-        out.append(dict(id=func[3:] + '.kill', func=func, params=dict(N=NB, crash=True, page=1), tags=['C07'], functions=FUNCS[func] + ['core.Cache._transact'],
-                        weight=60, must_reach=['crashed']))
+        # set: in-database rows here (set_file.kill and add_file.kill carry the file-backed rows); generous budget: these are the longest jobs
+        out.append(dict(id=func[3:] + '.kill', func=func, params=dict(N=NB, crash=True, page=1, **({'kinds': ('int',)} if func == 'ob_set' else {})), tags=['C07'],
+                        functions=FUNCS[func] + ['core.Cache._transact'], weight=60, must_reach=['crashed'], budget_s=900 if quick else 2400))
     for N in big:
         add('ob_set', weight=N ** 3, N=N, policy='least-recently-stored', kinds=('int',))  # four rows: in-database values only (file-backed rows at N <= 3)
         add('ob_cull', weight=N ** 2, N=N, policy='least-recently-used', batch=2)
